@@ -1,7 +1,6 @@
 from collections import Counter
 from functools import reduce
 from itertools import islice
-from math import ceil
 from typing import Dict, Iterable, List, Sequence, Tuple, TypeVar
 
 T = TypeVar("T")
@@ -79,13 +78,13 @@ def split_into_batches(
 
 
 def _expand_sample_size(n_samples, max_sample_size):
-    multiplicities = ceil(n_samples / max_sample_size)
-    new_n_samples = (
-        multiplicities * (max_sample_size,)
-        if n_samples % max_sample_size == 0
-        else (multiplicities - 1) * (max_sample_size,) + (n_samples % max_sample_size,)
-    )
-    return new_n_samples, multiplicities
+    # Exact integer arithmetic: ceil(n_samples / max_sample_size) goes through a float
+    # and is off by one for counts above 2**53.
+    full_chunks, remainder = divmod(n_samples, max_sample_size)
+    full_chunks = int(full_chunks)
+    if remainder == 0:
+        return full_chunks * (max_sample_size,), full_chunks
+    return full_chunks * (max_sample_size,) + (remainder,), full_chunks + 1
 
 
 def expand_sample_sizes(
